@@ -529,10 +529,15 @@ _SEQ_XSD = """<xs:schema xmlns:xs="http://www.w3.org/2001/XMLSchema">
  <xs:simpleType name="UR2"><xs:restriction base="U"><xs:pattern value="[0-9]{2}"/></xs:restriction></xs:simpleType>
  <xs:simpleType name="L"><xs:list itemType="xs:integer"/></xs:simpleType>
  <xs:simpleType name="LR"><xs:restriction base="L"><xs:length value="2"/></xs:restriction></xs:simpleType>
+ <xs:simpleType name="LD"><xs:list itemType="xs:date"/></xs:simpleType>
+ <xs:simpleType name="LQ"><xs:restriction><xs:simpleType><xs:list itemType="xs:QName"/></xs:simpleType><xs:maxLength value="2"/></xs:restriction></xs:simpleType>
  <xs:element name="r"><xs:complexType><xs:sequence>
    <xs:element name="e1" type="UR1"/><xs:element name="e2" type="U"/><xs:element name="e3" type="UR2"/><xs:element name="e4" type="LR"/>
+   <xs:element name="e5" type="LD" minOccurs="0"/><xs:element name="e6" type="LQ" minOccurs="0"/>
  </xs:sequence><xs:attribute name="a1" type="UR2"/><xs:attribute name="a2" type="U"/></xs:complexType></xs:element></xs:schema>"""
 SEQ_VALUES = ['12', 'ABC', 'abc', 'x y', '1 2', '7']
+LD_VALUES = ['2000-01-01', '2000-01-01 2001-02-03Z', ' 1999-12-31  2000-02-29 ', '2000-01-01 x']          # lists of dates
+LQ_VALUES = ['t:a', 't:a t:b', 't:a t:b t:c', 'a b c d']                                              # lists of QNames, maxLength 2
 _SEQ = {}
 
 
@@ -561,7 +566,7 @@ def _seq_ref(tname, text):
 
 
 def pre_seq(fn, **kw):
-    return all(0 <= v < len(SEQ_VALUES) for v in kw.values())
+    return all(0 <= v < (4 if k in ("e5", "e6") else len(SEQ_VALUES)) for k, v in kw.items())
 
 
 def h_seq(**kw) -> bool:
@@ -575,6 +580,30 @@ def h_seq(**kw) -> bool:
     root = ET.Element('r', {"a1": vals["a1"], "a2": vals["a2"]})
     for name in ("e1", "e2", "e3", "e4"):
         ET.SubElement(root, name).text = vals[name]
+    ld = LD_VALUES[pick(kw["e5"], 4)] if "e5" in kw else None
+    lq = LQ_VALUES[pick(kw["e6"], 4)] if "e6" in kw else None
+    if ld is not None:
+        ET.SubElement(root, 'e5').text = ld
+    if lq is not None:
+        ET.SubElement(root, 'e6').text = lq
+    ns = {'t': 'urn:t'}
+    if ld is not None or lq is not None:
+        # the list elements: validity and, for the dates, the decoded items (each item is its own lexical form)
+        import re
+        bad = {e.path for e in sch.iter_errors(root, namespaces=ns)}
+        data, _ = sch.decode(root, validation='lax', namespaces=ns)
+        if ld is not None:
+            items = ld.split()
+            ok = all(re.fullmatch(r'-?[0-9]{4}-[0-9]{2}-[0-9]{2}(Z|[+-][0-9]{2}:[0-9]{2})?', i) for i in items)
+            if ('/r/e5' in bad) == ok:
+                return False
+            if ok and data.get('e5') != items:
+                return False
+        if lq is not None:
+            ok = len(lq.split()) <= 2
+            if ('/r/e6' in bad) == ok:
+                return False
+        return True
     bad_paths = set()
     for e in sch.iter_errors(root):
         bad_paths.add((e.path or '') + ('/@' + e.reason.split("attribute ")[1].split("=")[0] if e.reason and e.reason.startswith("attribute ") else ''))
@@ -652,7 +681,7 @@ def obligations(tier, seed):
         out.append({"name": "facet-smt/%s" % f, "engine": "smt", "fn": "smt_facet", "config": {"facet": f, "maxlen": 8}, "timeout": 60,
                     "bound": "all strings of length <= 8 and all facet values >= 0"})
     for version in ("1.0", "1.1"):
-        for grp in (("e1", "e2", "e3"), ("a1", "a2", "e2"), ("e3", "e4", "a2")):
+        for grp in (("e1", "e2", "e3"), ("a1", "a2", "e2"), ("e3", "e4", "a2"), ("e5", "e6")):
             out.append({"name": "seq/%s/%s" % (version, "+".join(grp)), "fn": "h_seq", "pre": "pre_seq", "args": [[g, "int"] for g in grp],
                         "config": {"version": version, "seq": True}, "timeout": 300, "twin_timeout": 30,
                         "bound": "values of %s from %r in one document (pattern-restricted unions, a length-restricted list), the other values fixed valid" % (grp, SEQ_VALUES)})
